@@ -313,6 +313,25 @@ const (
 	CommandStatusFailure = CommandStatus("failure")
 )
 
+func (s CommandStatus) Validate() error {
+	switch s {
+	case CommandStatusSuccess, CommandStatusFailure:
+		return nil
+	}
+
+	return fmt.Errorf("invalid command status '%v'", s)
+}
+
+func (s *CommandStatus) UnmarshalText(text []byte) error {
+	status := CommandStatus(text)
+	err := status.Validate()
+	if err != nil {
+		return err
+	}
+	*s = status
+	return nil
+}
+
 const URISchemeLime = "lime"
 
 // URI defines a Lime resource identifier.
